@@ -65,6 +65,7 @@ Positions(n) == IF sc.plen <= TamperAllMax /\ sc.alen <= 17 THEN 1..n
 FieldLen(f) == CASE f = "nonce" -> sc.nlen [] f = "aad" -> sc.alen [] f = "ct" -> sc.plen [] f = "tag" -> sc.tlen
 OpenTampered(f, pos, mask) ==
   /\ phase = "sealed" /\ phase' = "rejected" /\ UNCHANGED <<sc, sealed>>
+  /\ sc.alen <= 1000                            \* the long-AAD scenarios (CCM length-encoding seam) only seal and open
   /\ pos \in Positions(FieldLen(f))
   /\ LET n == IF f = "nonce" THEN B!FlipAt(Nonce(sc), pos, mask) ELSE Nonce(sc)
          a == IF f = "aad" THEN B!FlipAt(Ad(sc), pos, mask) ELSE Ad(sc)
@@ -77,6 +78,7 @@ OpenTampered(f, pos, mask) ==
         /\ Emit(hist')
 OpenTruncated(k) ==       \* the last k bytes missing
   /\ phase = "sealed" /\ phase' = "rejected" /\ UNCHANGED <<sc, sealed>>
+  /\ sc.alen <= 1000
   /\ k <= Len(sealed)
   /\ LET ct == B!Take(sealed, Len(sealed) - k)
          r == OpenOf(sc, Nonce(sc), ct, Ad(sc))
